@@ -133,6 +133,25 @@ def run(ctx):
                     ctx.spec_fail('search|partition', 'search/searchcomplement do not partition the input', {'table': repr(T), 'field': f})
         except Exception as e:   # noqa
             ctx.spec_fail('search|raises', 'search raised %r' % e, {'table': repr(T), 'field': f})
+        # search over several fields / the whole row: a row matches when ANY of the cells matches
+        if all(len(r) == len(hdr) for r in T[1:]):
+            for fields in ([None] + ([tuple(hdr[:2]), tuple(reversed(hdr))] if len(hdr) >= 2 else [])):
+                try:
+                    if fields is None:
+                        s1, s2 = list(etl.search(T, 'a'))[1:], list(etl.searchcomplement(T, 'a'))[1:]
+                        idxs = list(range(len(hdr)))
+                    else:
+                        s1, s2 = list(etl.search(T, fields, 'a'))[1:], list(etl.searchcomplement(T, fields, 'a'))[1:]
+                        idxs = [hdr.index(x) for x in fields]
+                    hit = lambda r: any('a' in str(r[i]) for i in idxs)
+                    ok = s1 == [r for r in rows if hit(r)] and s2 == [r for r in rows if not hit(r)]
+                    ctx.case(('search-multi', repr(T), repr(fields)) if len(T) > 2 else None)
+                    ctx.count('op:search-multi')
+                    if not ok:
+                        ctx.spec_fail('search|multi-field', 'search/searchcomplement over several fields are not the rows with / without a matching cell',
+                                      {'table': repr(T), 'fields': repr(fields), 'search': repr(s1), 'complement': repr(s2)})
+                except Exception as e:   # noqa
+                    ctx.spec_fail('search|raises', 'search raised %r' % e, {'table': repr(T), 'field': repr(fields)})
         # facet
         try:
             hashable = all(not isinstance((r[hdr.index(f)] if hdr.index(f) < len(r) else None), list) for r in T[1:])
